@@ -60,20 +60,21 @@ Section Shamir.
     fold_left (fun accum iv => gadd (smul (lagrange kxs (fst iv)) (snd iv)) accum) shares gzero.
 End Shamir.
 
-(** Executable instance: the prime field Z mod r (inverse by Fermat), and "in the
+(** Executable instance: the prime field Z mod r (inverse by extended Euclid), and "in the
     exponent" the module Z mod r over itself. *)
 From Coq Require Import ZArith.
 Local Open Scope Z_scope.
 
-Fixpoint pow_mod_pos (b : Z) (e : positive) (m : Z) : Z :=
-  match e with
-  | xH => b mod m
-  | xO e' => let t := pow_mod_pos b e' m in (t * t) mod m
-  | xI e' => let t := pow_mod_pos b e' m in ((t * t) mod m * b) mod m
+(** inverse modulo the prime [r] by the extended Euclidean algorithm (fuel 600 > 1.45 * 256
+    steps): invariant [t_i * a = r_i (mod r)], at the end [r_0 = gcd = 1]. *)
+Fixpoint egcd (fuel : nat) (r0 r1 t0 t1 : Z) : Z :=
+  match fuel with
+  | O => t0
+  | S f => if r1 =? 0 then t0 else let q := r0 / r1 in egcd f r1 (r0 - q * r1) t1 (t0 - q * t1)
   end.
 Definition zr_inv (r : Z) (x : Z) : option Z :=
-  if x mod r =? 0 then None
-  else match r - 2 with Zpos e => Some (pow_mod_pos (x mod r) e r) | _ => Some (x mod r) end.
+  let a := x mod r in
+  if a =? 0 then None else Some ((egcd 600 r a 0 1) mod r).
 
 Definition zr_add (r a b : Z) := (a + b) mod r.
 Definition zr_sub (r a b : Z) := (a - b) mod r.
